@@ -145,9 +145,28 @@ const (
 // ---------------------------------------------------------------- chain wrapper (network.BlockChain)
 
 type chainWrap struct {
-	r    *rig
-	bc   *chain.BlockChain
-	gate chan struct{} // probe only: when set, InsertBlock waits here after its begin event
+	r  *rig
+	bc *chain.BlockChain
+	// the interleaving "something arrives while the engine is busy with block X": when gateHash is set, InsertBlock of
+	// that block waits on gate right after its begin event (guarded by r.mu)
+	gate     chan struct{}
+	gateHash common.Hash
+}
+
+func (c *chainWrap) hold(h common.Hash) {
+	c.r.mu.Lock()
+	c.gate, c.gateHash = make(chan struct{}), h
+	c.r.mu.Unlock()
+}
+
+func (c *chainWrap) release() {
+	c.r.mu.Lock()
+	g := c.gate
+	c.gate = nil
+	c.r.mu.Unlock()
+	if g != nil {
+		close(g)
+	}
 }
 
 func (c *chainWrap) Genesis() *types.Block { return c.bc.Genesis() }
@@ -157,8 +176,10 @@ func (c *chainWrap) HasBlock(hash common.Hash) bool {
 	c.r.add(ev{kind: "HasBlock", caller: who, hash: hash, ok: ok})
 	return ok
 }
-func (c *chainWrap) GetBlockByHeight(height uint32) *types.Block { return c.bc.GetBlockByHeight(height) }
-func (c *chainWrap) GetBlockByHash(hash common.Hash) *types.Block  { return c.bc.GetBlockByHash(hash) }
+func (c *chainWrap) GetBlockByHeight(height uint32) *types.Block {
+	return c.bc.GetBlockByHeight(height)
+}
+func (c *chainWrap) GetBlockByHash(hash common.Hash) *types.Block { return c.bc.GetBlockByHash(hash) }
 func (c *chainWrap) CurrentBlock() *types.Block {
 	who := callerName()
 	b := c.bc.CurrentBlock()
@@ -175,7 +196,13 @@ func (c *chainWrap) InsertBlock(block *types.Block) error {
 	who := callerName()
 	h := block.Hash()
 	c.r.add(ev{kind: "InsertBlock.begin", caller: who, hash: h, height: block.Height()})
-	if g := c.gate; g != nil {
+	c.r.mu.Lock()
+	g := c.gate
+	if h != c.gateHash {
+		g = nil
+	}
+	c.r.mu.Unlock()
+	if g != nil {
 		<-g
 	}
 	err := c.bc.InsertBlock(block)
@@ -267,14 +294,14 @@ func (m *mockPeer) WriteMsg(code p2p.MsgCode, msg []byte) error {
 	m.r.add(ev{kind: "write", code: code, content: append([]byte(nil), msg...)})
 	return nil
 }
-func (m *mockPeer) SetWriteDeadline(time.Duration)                  {}
-func (m *mockPeer) RNodeID() *p2p.NodeID                            { id := m.id; return &id }
-func (m *mockPeer) RAddress() string                                { return "10.0.0.1:7001" }
-func (m *mockPeer) LAddress() string                                { return "10.0.0.2:7002" }
+func (m *mockPeer) SetWriteDeadline(time.Duration)                   {}
+func (m *mockPeer) RNodeID() *p2p.NodeID                             { id := m.id; return &id }
+func (m *mockPeer) RAddress() string                                 { return "10.0.0.1:7001" }
+func (m *mockPeer) LAddress() string                                 { return "10.0.0.2:7002" }
 func (m *mockPeer) DoHandshake(*ecdsa.PrivateKey, *p2p.NodeID) error { return nil }
-func (m *mockPeer) Run() error                                      { return nil }
-func (m *mockPeer) NeedReConnect() bool                             { return false }
-func (m *mockPeer) SetStatus(s int32)                               { m.mu.Lock(); m.status = s; m.mu.Unlock() }
+func (m *mockPeer) Run() error                                       { return nil }
+func (m *mockPeer) NeedReConnect() bool                              { return false }
+func (m *mockPeer) SetStatus(s int32)                                { m.mu.Lock(); m.status = s; m.mu.Unlock() }
 func (m *mockPeer) Close() {
 	m.mu.Lock()
 	was := m.closed
@@ -394,9 +421,8 @@ func (n *nut) fence() {
 // settled: every InsertBlock / InsertConfirms the manager decided on (HasBlock(parent)=true in the receive loop
 // or in the timer callback; HasBlock(hash)=true for a single confirm) has begun and ended.
 func settledIn(evs []ev) bool {
-	expIns, endIns, expConf, endConf := 0, 0, 0, 0
-	var rcvHash common.Hash // the receive loop asks HasBlock(b.Hash()) first, then HasBlock(b.ParentHash())
-	rcvState := 0
+	expIns, begIns, endIns, expConf, goConf, begConf, endConf := 0, 0, 0, 0, 0, 0, 0
+	rcvState := 0 // the receive loop asks StableBlock(), then HasBlock(b.Hash()), then HasBlock(b.ParentHash())
 	for _, e := range evs {
 		switch e.kind {
 		case "StableBlock":
@@ -406,12 +432,11 @@ func settledIn(evs []ev) bool {
 		case "HasBlock":
 			switch {
 			case e.caller == fromRcvLoop && rcvState == 1:
-				rcvHash = e.hash
 				rcvState = 2
 				if e.ok {
 					rcvState = 0
 				}
-			case e.caller == fromRcvLoop && rcvState == 2 && e.hash != rcvHash:
+			case e.caller == fromRcvLoop && rcvState == 2:
 				rcvState = 0
 				if e.ok {
 					expIns++
@@ -425,13 +450,20 @@ func settledIn(evs []ev) bool {
 					expConf++
 				}
 			}
+		case "InsertBlock.begin":
+			begIns++
 		case "InsertBlock.end":
 			endIns++
+		case "InsertConfirms.begin":
+			begConf++
+			if e.caller == "runtime.goexit" { // started by handleConfirmMsg's go statement (any other caller is a synchronous call)
+				goConf++
+			}
 		case "InsertConfirms.end":
 			endConf++
 		}
 	}
-	return expIns == endIns && expConf == endConf
+	return begIns == endIns && begConf == endConf && begIns >= expIns && goConf >= expConf
 }
 
 func (n *nut) waitSettled(what string) {
@@ -463,7 +495,8 @@ func (n *nut) waitStableCleared(stable uint32) {
 			return
 		}
 		if time.Now().After(deadline) {
-			engine.Failf("sync harness: caches still hold entries at or below the stable height %d after %v", stable, waitLimit)
+			engine.Failf("sync harness: caches still hold entries at or below the stable height %d after %v: slots %v, confirms %v",
+				stable, waitLimit, dumpBlockCache(n.bcache), dumpConfirmCache(n.ccache))
 		}
 		time.Sleep(time.Millisecond)
 	}
